@@ -89,6 +89,22 @@ func runPlan(c *core.Ctx, p *plan) error {
 		return err
 	}
 	lap("search")
+	type rpOut struct {
+		rp  *ReplayStats
+		err error
+	}
+	rpCh := make(chan rpOut, 1)
+	if p.nSim > 0 { // simulation + replay overlap with the validation of the search's schedules
+		go func() {
+			bs, err := Simulate(c, p.simCfg, p.nSim, min(p.procs, 8), "s")
+			if err != nil {
+				rpCh <- rpOut{nil, err}
+				return
+			}
+			rp, err := ReplayAll(c, b, bs, "r", p.procs)
+			rpCh <- rpOut{rp, err}
+		}()
+	}
 	runCfg := map[string]obs.Cfg{}
 	runKeys := map[string][]string{}
 	runFail := map[string]VsFailure{}
@@ -129,18 +145,15 @@ func runPlan(c *core.Ctx, p *plan) error {
 	}
 	lap("validate")
 
-	// 3. TLC-simulated behaviours replayed into the real code
+	// 3. TLC-simulated behaviours replayed into the real code (started right after the search, see above)
 	var rp *ReplayStats
 	replayValidated := 0
 	if p.nSim > 0 {
-		bs, err := Simulate(c, p.simCfg, p.nSim, min(p.procs, 8), "s")
-		if err != nil {
-			return err
+		ro := <-rpCh
+		if ro.err != nil {
+			return ro.err
 		}
-		rp, err = ReplayAll(c, b, bs, "r", p.procs)
-		if err != nil {
-			return err
-		}
+		rp = ro.rp
 		// the replayed runs are real executions too: TLC judges them (a sample, they are long)
 		maxT := 2
 		if len(rp.Traces) < maxT {
